@@ -375,7 +375,10 @@ class Gen:
         return self.text()
 
     def template(self, size=4, depth=3):
-        return "".join(self.node(depth) for _ in range(self.r.randrange(1, size + 1)))
+        body = "".join(self.node(depth) for _ in range(self.r.randrange(1, size + 1)))
+        if self.r.random() < 0.15:       # a root-level extends first: every later extends makes the generator leave its body
+            body = self.tag(self.r.choice(['extends "base"', "extends x"])) + body
+        return body
 
 
 # ---------------------------------------------------------------------------------------------------------------
@@ -515,6 +518,67 @@ def keyword_names():
                                       "__", "__x", "_1", "l_1", "l_1_", "t_", "print", "abs", "__name__", "__builtins__"]
 
 
+# ---------------------------------------------------------------------------------------------------------------
+# statements that make the code generator leave a body early or that are only legal in some enclosing construct
+# (a second `extends` -> CompilerExit; `break`/`continue`), in every nesting position
+# ---------------------------------------------------------------------------------------------------------------
+
+def _wrappers(d):
+    """(name, opening part, closing part) of every construct with a body, for nesting level d"""
+    return [
+        ("if", "{% if x %}", "{% endif %}"),
+        ("elif", "{% if x %}t{% elif y %}", "{% endif %}"),
+        ("else", "{% if x %}t{% else %}", "{% endif %}"),
+        ("if-then-else", "{% if x %}", "{% else %}e{% endif %}"),
+        ("for", "{% for i# in x %}".replace("#", str(d)), "{% endfor %}"),
+        ("for-else", "{% for i# in x %}t{% else %}".replace("#", str(d)), "{% endfor %}"),
+        ("for-body-else", "{% for i# in x %}".replace("#", str(d)), "{% else %}e{% endfor %}"),
+        ("for-rec", "{% for i# in x recursive %}{{ loop(i#) }}".replace("#", str(d)), "{% endfor %}"),
+        ("for-rec-else", "{% for i# in x recursive %}t{% else %}".replace("#", str(d)), "{% endfor %}"),
+        ("for-if", "{% for i# in x if i# %}".replace("#", str(d)), "{% endfor %}"),
+        ("with", "{% with v# = 1 %}".replace("#", str(d)), "{% endwith %}"),
+        ("block", "{% block b# %}".replace("#", str(d)), "{% endblock %}"),
+        ("macro", "{% macro m#() %}".replace("#", str(d)), "{% endmacro %}"),
+        ("call", "{% call f() %}", "{% endcall %}"),
+        ("filter", "{% filter upper %}", "{% endfilter %}"),
+        ("setblock", "{% set s# %}".replace("#", str(d)), "{% endset %}"),
+        ("autoescape", "{% autoescape true %}", "{% endautoescape %}"),
+    ]
+
+
+DEEP = ("if", "elif", "else", "for", "for-else", "for-rec-else", "with", "block")
+
+
+def nesting_sources(ext):
+    """root prefix x (statements before) x nest of depth 1..3 x inner statement x (statements after); depth <= 2 over
+    all 17 constructs, depth 3 over eight of them; deterministic and complete"""
+    inners = ["{% extends 'b' %}", "{% extends y %}{{ z }}"] + (["{% break %}", "{% continue %}"] if ext else [])
+    prefixes = ["{% extends 'a' %}", "", "{% extends a %}{% set q = 1 %}", "{% if w %}{% extends 'a' %}{% endif %}"]
+    around = [("", ""), ("{{ p }}{% set r = 1 %}", "{{ r }}{% block tail %}T{% endblock %}"), ("A", "{% extends 'c' %}")]
+
+    def nests(depth, names):
+        if depth == 0:
+            yield "", ""
+            return
+        for name, o, c in _wrappers(depth):
+            if names is not None and name not in names:
+                continue
+            for io, ic in nests(depth - 1, names):
+                yield o + "a" + io, ic + "z" + c
+
+    for depth, names in ((1, None), (2, None), (3, DEEP)):
+        for o, c in nests(depth, names):
+            for inner in inners:
+                for pre in (prefixes if depth < 3 else prefixes[:1]):
+                    for b, a in (around if depth < 3 else around[:2]):
+                        yield pre + b + o + inner + c + a
+    # two statements of the family in one body, and at the root
+    for inner in inners:
+        for pre in prefixes:
+            yield pre + inner + inner
+            yield pre + "{% if x %}" + inner + "{% endif %}{% if y %}" + inner + "{% else %}" + inner + "{% endif %}"
+
+
 def special_sources(ext):
     """every name (keywords, soft keywords, Jinja/runtime names, Unicode classes) in every name position, and the
     constant/edge-case list; deterministic, complete"""
@@ -524,6 +588,8 @@ def special_sources(ext):
         for n in names:
             yield p.replace("N", n).replace("M", "m2") if "N" in p else p
     for s in CONSTANTS:
+        yield s
+    for s in nesting_sources(ext):
         yield s
     for a in INTS + FLOATS + STRINGS:
         yield "{{ " + a + " }}"
